@@ -1,8 +1,8 @@
 /-
 Helper lemmas for property C08, part 25: the capped surface of a weakly oriented 2D symbol as an
 oriented map.  Darts: the triangle darts (chamber, edge) and one cap dart per mirror end (the
-positive boundary dart).  `phiM` walks around the faces (triangles, caps), `alphaM` flips an edge,
-`phiM * alphaM` rotates around a vertex.
+positive boundary dart).  `phiM` walks around the faces (triangles, caps), `alphaP` flips an edge,
+`phiM * alphaP` rotates around a vertex.
 -/
 import DSymVerif.Proofs.Delaney2dPositive
 
